@@ -1,5 +1,8 @@
 B = 'src/bookmarks.rs'
 D = 'src/document.rs'
+P = 'src/processor.rs'
+REN = dict(rule='R7', pat=r'\bold\b', to='old_id', note='parameter `old` renamed old_id: `old(..)` is a keyword of the specification language')
+SLICE1 = dict(rule='R5', lit='&children[..]', to='children.as_slice()', count=1, note='`&v[..]` of a Vec written `v.as_slice()`')
 SLICE = dict(rule='R5', lit='&children[..]', to='children.as_slice()', count=2, note='`&v[..]` of a Vec written `v.as_slice()` (same slice; vstd states its view at the call)')
 O = 'src/object.rs'
 UNIT = dict(
@@ -14,5 +17,7 @@ UNIT = dict(
         dict(file=B, impl='Document', name='add_bookmark', rules=dict(no_sink=True)),
         dict(file=D, impl='Document', name='recursive_fix_pages', rules=dict(no_sink=True, pre_subst=[SLICE])),
         dict(file=D, impl='Document', name='adjust_zero_pages', rules=dict(no_sink=True)),
+        dict(file=P, impl='Document', name='update_bookmark_pages', props=['C10'], rules=dict(no_sink=True, pre_subst=[SLICE1, REN])),
+        dict(file=P, impl='Document', name='renumber_bookmarks', props=['C10'], rules=dict(no_sink=True, pre_subst=[REN])),
     ],
 )
